@@ -113,6 +113,20 @@ func (e *End) Returned() {
 	e.l.mu.Unlock()
 }
 
+// Kill models SIGKILL of the process that owns this end: its own calls fail from now
+// on, the peer reads EOF after draining what is queued, and the peer's sends fail.
+func (e *End) Kill() {
+	e.l.mu.Lock()
+	e.Broken = true
+	e.out.closed = true
+	for _, o := range e.l.Ends {
+		if o != nil && o != e {
+			o.PeerGone = true
+		}
+	}
+	e.l.mu.Unlock()
+}
+
 func (e *End) Break() {
 	e.l.mu.Lock()
 	e.Broken = true
